@@ -41,6 +41,7 @@ type QFact struct {
 	lineIdx int
 	guard   Term
 	varSym  string
+	varSort Sort // sort of the bound variable ("" = Int)
 	body    Term // range ==> body, with varSym free
 	unfolds []unfoldT
 }
@@ -83,7 +84,11 @@ func (e *Env) quantPartsU(q *EQuant) (string, Term, Term, []unfoldT, error) {
 func (e *Env) quantParts0(q *EQuant) (string, Term, Term, error) {
 	e.vc.nfresh++
 	v := quote(fmt.Sprintf("q:%s!%d", q.Var, e.vc.nfresh))
-	env := e.with(map[string]TV{q.Var: {Term{v, SInt}, tInt}})
+	qt, err := e.quantVarType(q)
+	if err != nil {
+		return "", Term{}, Term{}, err
+	}
+	env := e.with(map[string]TV{q.Var: {Term{v, q.varSort()}, qt}})
 	env.bound = true
 	var unf []unfoldT
 	env.unfolds = &unf
@@ -134,10 +139,10 @@ func (vc *VC) assumeClause(guard Term, env *Env, cl *Clause) {
 			continue
 		}
 		if q.Forall {
-			vc.qfacts = append(vc.qfacts, &QFact{lineIdx: len(vc.lines), guard: and(guard, h), varSym: v, body: implies(rng, body), unfolds: unf})
+			vc.qfacts = append(vc.qfacts, &QFact{lineIdx: len(vc.lines), guard: and(guard, h), varSym: v, varSort: q.varSort(), body: implies(rng, body), unfolds: unf})
 			continue
 		}
-		w := vc.fresh("ex:"+q.Var, SInt)
+		w := vc.fresh("ex:"+q.Var, q.varSort())
 		vc.assume(and(guard, h), subst(and(rng, body), v, w))
 		vc.witnesses = append(vc.witnesses, &Witness{lineIdx: len(vc.lines), t: w})
 		// a universally quantified conjunct under the existential becomes a
@@ -147,7 +152,8 @@ func (vc *VC) assumeClause(guard Term, env *Env, cl *Clause) {
 			if !ok || !iq.Forall {
 				continue
 			}
-			ienv := env.with(map[string]TV{q.Var: {w, tInt}})
+			wt, _ := env.quantVarType(q)
+			ienv := env.with(map[string]TV{q.Var: {w, wt}})
 			ih, err := ienv.evalHyps(ip.hyps)
 			if err != nil {
 				continue
@@ -156,7 +162,7 @@ func (vc *VC) assumeClause(guard Term, env *Env, cl *Clause) {
 			if err != nil {
 				continue
 			}
-			vc.qfacts = append(vc.qfacts, &QFact{lineIdx: len(vc.lines), guard: and(guard, h, ih), varSym: iv, body: implies(irng, ibody)})
+			vc.qfacts = append(vc.qfacts, &QFact{lineIdx: len(vc.lines), guard: and(guard, h, ih), varSym: iv, varSort: iq.varSort(), body: implies(irng, ibody)})
 		}
 	}
 }
@@ -189,15 +195,21 @@ func (vc *VC) obligeClause(kind, label, site string, guard Term, env *Env, cl *C
 				return
 			}
 			vc.nfresh++
-			sk := Term{quote(fmt.Sprintf("sk:%s!%d", q.Var, vc.nfresh)), SInt}
+			sk := Term{quote(fmt.Sprintf("sk:%s!%d", q.Var, vc.nfresh)), q.varSort()}
 			goal := subst(implies(rng, body), v, sk)
 			o := vc.oblige(kind, label, psite, and(guard, h), goal, src)
 			if o == nil {
 				continue
 			}
-			o.Extra = append(o.Extra, fmt.Sprintf("(declare-const %s Int)", sk.S))
+			o.Extra = append(o.Extra, fmt.Sprintf("(declare-const %s %s)", sk.S, sk.Sort))
 			for _, u := range unf {
 				o.Extra = append(o.Extra, "(assert "+subst(eq(u.app, u.body), v, sk).S+")")
+			}
+			if sk.Sort == SStr {
+				// string-keyed quantifier (map keys): instances at the skolem
+				// and at the string locals (e.g. the key of a range loop)
+				vc.addInstances(o, append([]Term{sk}, vc.strCellTerms(env)...))
+				continue
 			}
 			vc.addInstances(o, vc.instCandidates([]Term{sk}, env))
 			continue
@@ -215,11 +227,20 @@ func (vc *VC) obligeClause(kind, label, site string, guard Term, env *Env, cl *C
 			}
 			var seeds []Term
 			for _, w := range vc.witnesses {
-				if w.lineIdx <= len(vc.lines) {
+				if w.lineIdx <= len(vc.lines) && w.t.Sort == q.varSort() {
 					seeds = append(seeds, w.t)
 				}
 			}
 			cands := vc.witnessCandidates(seeds, env)
+			if q.varSort() == SStr {
+				cands = nil
+				for _, sd := range seeds {
+					if sd.Sort == SStr {
+						cands = append(cands, sd)
+					}
+				}
+				cands = append(cands, vc.strCellTerms(env)...)
+			}
 			disj := []Term{orig}
 			for _, c := range cands {
 				disj = append(disj, subst(and(rng, body), v, c))
@@ -237,9 +258,47 @@ func (vc *VC) obligeClause(kind, label, site string, guard Term, env *Env, cl *C
 		}
 		if o := vc.oblige(kind, label, psite, and(guard, h), g, src); o != nil && len(vc.qfacts) > 0 {
 			// ground goal: offer the quantified assumptions at the integer locals
-			vc.addInstances(o, vc.witnessCandidates(nil, env))
+			vc.addInstances(o, append(vc.witnessCandidates(nil, env), vc.strCellTerms(env)...))
 		}
 	}
+}
+
+// strCellTerms lists the current values of the string-typed local variables
+// and of string-sorted names bound in the environment: the candidates at
+// which string-keyed quantified assumptions are instantiated.
+func (vc *VC) strCellTerms(env *Env) []Term {
+	var out []Term
+	seen := map[string]bool{}
+	st := env.cellState()
+	if st != nil {
+		var keys []ssa.Value
+		for k := range st.cells {
+			if _, ok := k.(*ssa.Alloc); ok {
+				keys = append(keys, k)
+			}
+		}
+		sortValues(keys)
+		for _, k := range keys {
+			t := st.cells[k]
+			if t.Sort == SStr && !seen[t.S] && len(out) < 8 {
+				seen[t.S] = true
+				out = append(out, t)
+			}
+		}
+	}
+	var names []string
+	for n := range env.vars {
+		names = append(names, n)
+	}
+	sort.Strings(names)
+	for _, n := range names {
+		tv := env.vars[n]
+		if tv.T.Sort == SStr && !seen[tv.T.S] && len(out) < 12 {
+			seen[tv.T.S] = true
+			out = append(out, tv.T)
+		}
+	}
+	return out
 }
 
 func (vc *VC) addInstances(o *Obligation, cands []Term) {
@@ -248,6 +307,9 @@ func (vc *VC) addInstances(o *Obligation, cands []Term) {
 			continue
 		}
 		for _, c := range cands {
+			if (qf.varSort == SStr) != (c.Sort == SStr) {
+				continue
+			}
 			o.Extra = append(o.Extra, "(assert "+implies(qf.guard, subst(qf.body, qf.varSym, c)).S+")")
 			for _, u := range qf.unfolds {
 				o.Extra = append(o.Extra, "(assert "+subst(eq(u.app, u.body), qf.varSym, c).S+")")
